@@ -31,8 +31,8 @@ LEVEL_NOTE = ("Decides the value/gradient clauses exactly (reference on the samp
               "batch-means z-score against closed-form Gaussian expectations).")
 RULE = ("seeded sampling over sampler x (nsamples, nburnout) x x-shape {(), (1,), (2,), (3,), (2,2)} x f kind x log p family {gauss, quartic} x "
         "log p output shape {(), (1,)} x placement of f / log p parameters x unused-tensor class {none, f, p, both, step-only} x shared x "
-        "derived x non-tensor parameter x order; groups: custom, dummy, mh_small (exact checks), mh_stat (statistical), meta (constant / "
-        "linearity / tuple relations); non-trivial = the f spy saw >= 2 distinct samples in the forward call and (at least one "
+        "derived x non-tensor parameter x order; groups: custom, dummy, mh_small (exact checks), mh_stat (statistical), mh_burn (chain started "
+        "30 sigma from the mode: burn-in must have happened), meta (constant / linearity / tuple relations); non-trivial = the f spy saw >= 2 distinct samples in the forward call and (at least one "
         "gradient with non-zero reference was compared, or the group is meta/mh_stat with its relation evaluated)")
 MIN_NONTRIVIAL = {"quick": 350, "thorough": 4000}
 ASSUMPTIONS = ["float64 only; x0 does not require grad; nsamples >= 1 (nsamples = 0 has no mean)",
@@ -40,7 +40,9 @@ ASSUMPTIONS = ["float64 only; x0 does not require grad; nsamples >= 1 (nsamples 
                "custom steps are deterministic, stateless maps x -> mu + s*sin(2.9*roll(x) + phase) (chaotic, bounded, all states distinct)",
                "first sample index after burn-in: nburnout or nburnout+1 both accepted; an optional leading probe call f(x0) is accepted",
                "mh: numbers of log p evaluations nburnout+nsamples+{1,2} and of f evaluations nsamples+{0,1} accepted",
-               "value / gradient tolerance 1e-9*(1+|ref|) (largest deviation seen on the repaired tree 3e-13); statistical bounds 8 sigma",
+               "mh_burn: 600 burn-in steps of size sigma/sqrt(d) from 30 sigma away (arrival takes 100-140 steps); a sample > 8 sigma from the mode "
+               "afterwards has probability ~1e-14",
+               "value / gradient tolerance 1e-9*(1+|ref|) (largest deviation seen on the repaired tree 1.2e-12, second order); statistical bounds 8 sigma",
                "second order = derivative of the first-order estimator including the score-function term of the sample weights"]
 BUDGET = {"quick": {"worker_timeout": 600, "case_timeout": 90}, "thorough": {"worker_timeout": 3000, "case_timeout": 120}}
 REQUIRED_COUNTERS = {
@@ -728,7 +730,6 @@ def run_main(desc):
 def run_mh_stat(desc):
     from xitorch.integrate import mcquad
     obs = Obs(desc)
-    rng = random.Random(desc["seed"])
     tgen = torch.Generator().manual_seed(desc["seed"])
     rec = Rec()
     xshape = XSHAPES[desc["xshape"]]
